@@ -172,6 +172,8 @@ pub enum Pred {
 #[derive(Clone, Debug)]
 pub enum Stmt {
     Insert { t: usize, rows: Vec<Row> },
+    /// INSERT INTO dst SELECT * FROM src [WHERE c0 >= 0]; `sel` = what that SELECT returned
+    InsertSelect { dst: usize, src: usize, simple: bool, sel: Vec<Row> },
     Update { t: usize, asg: Vec<(usize, Expr)>, wh: Option<Pred> },
     Delete { t: usize, wh: Option<Pred> },
     Truncate { t: usize, cascade: bool },
@@ -303,6 +305,15 @@ impl Expr {
     }
 }
 
+/// the SELECT that feeds INSERT..SELECT (the plain form takes the bulk-transfer path when the schemas allow it)
+pub fn select_sql(src: usize, simple: bool) -> String {
+    if simple {
+        format!("SELECT * FROM {}", tname(src))
+    } else {
+        format!("SELECT * FROM {} WHERE c0 >= 0", tname(src))
+    }
+}
+
 impl Stmt {
     pub fn sql(&self) -> String {
         match self {
@@ -313,6 +324,11 @@ impl Stmt {
                     .map(|r| format!("({})", r.iter().map(vsql).collect::<Vec<_>>().join(", ")))
                     .collect::<Vec<_>>()
                     .join(", ")
+            ),
+            Stmt::InsertSelect { dst, src, simple, .. } => format!(
+                "INSERT INTO {} {}",
+                tname(*dst),
+                select_sql(*src, *simple)
             ),
             Stmt::Update { t, asg, wh } => format!(
                 "UPDATE {} SET {}{}",
@@ -331,6 +347,7 @@ impl Stmt {
     pub fn coq(&self) -> String {
         match self {
             Stmt::Insert { t, rows } => format!("INS {} {}", t, rowscoq(rows)),
+            Stmt::InsertSelect { dst, src, simple, sel } => format!("INSSEL {} {} {} {}", dst, src, simple, rowscoq(sel)),
             Stmt::Update { t, asg, wh } => format!(
                 "UPD {} [{}] {}",
                 t,
@@ -346,6 +363,8 @@ impl Stmt {
     pub fn kind(&self) -> &'static str {
         match self {
             Stmt::Insert { .. } => "insert",
+            Stmt::InsertSelect { simple: true, .. } => "insert_select_simple",
+            Stmt::InsertSelect { .. } => "insert_select_where",
             Stmt::Update { .. } => "update",
             Stmt::Delete { .. } => "delete",
             Stmt::Truncate { .. } => "truncate",
@@ -355,6 +374,7 @@ impl Stmt {
     }
     pub fn target(&self) -> usize {
         match self {
+            Stmt::InsertSelect { dst, .. } => *dst,
             Stmt::Insert { t, .. }
             | Stmt::Update { t, .. }
             | Stmt::Delete { t, .. }
